@@ -8,9 +8,12 @@ use bytes::Bytes;
 use domain::base::name::{Label, ParsedName, ToLabelIter, ToName};
 use domain::base::opt::{AllOptData, UnknownOptData};
 use domain::base::zonefile_fmt::{DisplayKind, ZonefileFmt};
+use domain::base::message::RecordSection;
+use domain::base::rdata::{ParseAnyRecordData, ParseRecordData, RecordData, UnknownRecordData};
 use domain::base::{Message, ParsedRecord, Question};
 use domain::net::xfr::protocol::XfrResponseInterpreter;
-use domain::rdata::AllRecordData;
+use domain::rdata::{Aaaa, AllRecordData, Cname, Dnskey, Ds, Mx, Ns, Nsec, Ptr, Soa, Txt, ZoneRecordData, A};
+use octseq::octets::Octets;
 use serde_json::{json, Map, Value};
 use std::collections::hash_map::DefaultHasher;
 use std::collections::BTreeMap;
@@ -122,7 +125,315 @@ pub fn use_name(n: &ParsedName<&[u8]>) -> Value {
     assert!(q.is_root());
     let r = n.ref_octets();
     assert_eq!(r.label_count(), fwd);
+    // further routes to the same name: `for l in &name`, a ParsedName made
+    // from the flattened name, the labels as owned labels, the serde rendering
+    let mut via_into: Vec<Vec<u8>> = vec![];
+    for l in n {
+        if !l.is_root() {
+            via_into.push(l.as_slice().to_vec());
+        }
+        let owned = l.to_owned();
+        assert!(owned.as_label() == l, "owned label differs");
+        let ob: &[u8] = owned.as_ref();
+        assert_eq!(ob, l.as_slice(), "owned label: other octets");
+        assert_eq!(format!("{}", owned), format!("{}", l), "owned label displays differently");
+        assert_eq!(l.is_wildcard(), l.as_slice() == b"*");
+    }
+    assert_eq!(via_into, lv, "IntoIterator yields other labels");
+    let back: ParsedName<Vec<u8>> = ParsedName::from(flat.clone());
+    assert!(&back == n && back.iter().count() == fwd && !back.is_compressed(), "ParsedName::from(Name) differs");
+    assert_eq!(format!("{}", back), s);
+    assert_eq!(serde_json::to_string(n).expect("serialize name"), serde_json::to_string(&s).unwrap());
     labels
+}
+
+//------------ typed views of a record section ---------------------------------
+
+/// What the specification shows of a record's data (Wire.tla `RdSum`): the
+/// embedded names, the options, the octets of fixed-length data, the length
+/// of raw data; `None` where the layout is opaque to the specification.
+pub trait Summ {
+    fn summ(&self) -> Option<Value>;
+}
+
+fn nm<O: AsRef<[u8]>>(n: &ParsedName<O>) -> Value {
+    labels_json(n.iter())
+}
+
+impl Summ for A {
+    fn summ(&self) -> Option<Value> {
+        Some(json_bytes(&self.addr().octets()))
+    }
+}
+impl Summ for Aaaa {
+    fn summ(&self) -> Option<Value> {
+        Some(json_bytes(&self.addr().octets()))
+    }
+}
+impl<O: AsRef<[u8]>> Summ for Ns<ParsedName<O>> {
+    fn summ(&self) -> Option<Value> {
+        Some(json!([nm(self.nsdname())]))
+    }
+}
+impl<O: AsRef<[u8]>> Summ for Cname<ParsedName<O>> {
+    fn summ(&self) -> Option<Value> {
+        Some(json!([nm(self.cname())]))
+    }
+}
+impl<O: AsRef<[u8]>> Summ for Ptr<ParsedName<O>> {
+    fn summ(&self) -> Option<Value> {
+        Some(json!([nm(self.ptrdname())]))
+    }
+}
+impl<O: AsRef<[u8]>> Summ for Mx<ParsedName<O>> {
+    fn summ(&self) -> Option<Value> {
+        Some(json!([nm(self.exchange())]))
+    }
+}
+impl<O: AsRef<[u8]>> Summ for Soa<ParsedName<O>> {
+    fn summ(&self) -> Option<Value> {
+        Some(json!([nm(self.mname()), nm(self.rname())]))
+    }
+}
+fn opts_of<O: Octets>(o: &domain::base::opt::Opt<O>) -> Value {
+    let mut opts = vec![];
+    for x in o.iter::<UnknownOptData<_>>() {
+        let x = x.expect("raw option of a checked OPT record");
+        opts.push(json!([x.code().to_int(), x.as_slice().len()]));
+    }
+    Value::Array(opts)
+}
+impl<O: Octets> Summ for domain::base::opt::Opt<O> {
+    fn summ(&self) -> Option<Value> {
+        Some(opts_of(self))
+    }
+}
+impl<O: AsRef<[u8]>> Summ for Txt<O> {
+    fn summ(&self) -> Option<Value> {
+        None
+    }
+}
+impl<O: AsRef<[u8]>> Summ for Dnskey<O> {
+    fn summ(&self) -> Option<Value> {
+        None
+    }
+}
+impl<O: AsRef<[u8]>> Summ for Ds<O> {
+    fn summ(&self) -> Option<Value> {
+        None
+    }
+}
+impl<O: AsRef<[u8]>, N> Summ for Nsec<O, N> {
+    fn summ(&self) -> Option<Value> {
+        None
+    }
+}
+impl<O: AsRef<[u8]>> Summ for UnknownRecordData<O> {
+    fn summ(&self) -> Option<Value> {
+        Some(json!([self.data().as_ref().len()]))
+    }
+}
+impl<O: Octets> Summ for AllRecordData<O, ParsedName<O>> {
+    fn summ(&self) -> Option<Value> {
+        match self {
+            AllRecordData::A(d) => d.summ(),
+            AllRecordData::Aaaa(d) => d.summ(),
+            AllRecordData::Ns(d) => d.summ(),
+            AllRecordData::Cname(d) => d.summ(),
+            AllRecordData::Ptr(d) => d.summ(),
+            AllRecordData::Mx(d) => d.summ(),
+            AllRecordData::Soa(d) => d.summ(),
+            AllRecordData::Opt(d) => d.summ(),
+            AllRecordData::Unknown(d) if rd_kind(d.rtype().to_int()) == "raw" => d.summ(),
+            _ => None,
+        }
+    }
+}
+impl<O: Octets> Summ for ZoneRecordData<O, ParsedName<O>> {
+    fn summ(&self) -> Option<Value> {
+        match self {
+            ZoneRecordData::A(d) => d.summ(),
+            ZoneRecordData::Aaaa(d) => d.summ(),
+            ZoneRecordData::Ns(d) => d.summ(),
+            ZoneRecordData::Cname(d) => d.summ(),
+            ZoneRecordData::Ptr(d) => d.summ(),
+            ZoneRecordData::Mx(d) => d.summ(),
+            ZoneRecordData::Soa(d) => d.summ(),
+            ZoneRecordData::Unknown(d) if d.rtype().to_int() == 41 || rd_kind(d.rtype().to_int()) == "raw" => d.summ(),
+            _ => None,
+        }
+    }
+}
+
+/// One element of a typed walk (Wire.tla `TElem`): `["r", owner, type, class,
+/// ttlhi, ttllo, summary]`, `["e"]` for an error, `["o"]` for a value whose
+/// layout the specification does not know.
+pub fn telem<O: AsRef<[u8]>, D: Summ + RecordData>(
+    item: Result<domain::base::Record<ParsedName<O>, D>, domain::base::wire::ParseError>,
+) -> Value {
+    match item {
+        Err(_) => json!(["e"]),
+        Ok(rec) => match rec.data().summ() {
+            None => json!(["o"]),
+            Some(sum) => {
+                let ttl = rec.ttl().as_secs();
+                json!(["r", nm(rec.owner()), rec.rtype().to_int(), rec.class().to_int(),
+                       (ttl >> 16) as u16, (ttl & 0xFFFF) as u16, sum])
+            }
+        },
+    }
+}
+
+const WALK_CAP: usize = 70_000;
+
+/// The same walk by three routes: the iterator itself, a clone taken before
+/// the first step, and an iterator that is replaced by its own clone before
+/// every step and that passes through unwrap() + the same limit again half
+/// way.  The specification expects one and the same walk from all of them.
+fn same_walk(direct: Vec<Value>, others: [Vec<Value>; 2]) -> Value {
+    for (i, o) in others.iter().enumerate() {
+        if *o != direct {
+            return json!({"routes_differ": i + 1, "direct": direct, "other": o});
+        }
+    }
+    Value::Array(direct)
+}
+
+pub fn walk_lim<'a, O, D>(sec: RecordSection<'a, O>, in_only: bool) -> Value
+where
+    O: Octets + ?Sized,
+    D: ParseRecordData<'a, O> + Summ,
+{
+    let mk = |s: RecordSection<'a, O>| if in_only { s.limit_to_in::<D>() } else { s.limit_to::<D>() };
+    let it = mk(sec);
+    let early = it.clone();
+    let mut hop = it.clone();
+    let direct: Vec<Value> = it.take(WALK_CAP).map(telem).collect();
+    let by_clone: Vec<Value> = early.take(WALK_CAP).map(telem).collect();
+    let mut hopped = vec![];
+    loop {
+        hop = hop.clone();
+        if hopped.len() == 1 {
+            hop = mk(hop.unwrap());
+        }
+        match hop.next() {
+            Some(x) if hopped.len() < WALK_CAP => hopped.push(telem(x)),
+            _ => break,
+        }
+    }
+    same_walk(direct, [by_clone, hopped])
+}
+
+pub fn walk_any<'a, O, D>(sec: RecordSection<'a, O>) -> Value
+where
+    O: Octets + ?Sized,
+    D: ParseAnyRecordData<'a, O> + Summ,
+{
+    let it = sec.into_records::<D>();
+    let early = it.clone();
+    let mut hop = it.clone();
+    let direct: Vec<Value> = it.take(WALK_CAP).map(telem).collect();
+    let by_clone: Vec<Value> = early.take(WALK_CAP).map(telem).collect();
+    let mut hopped = vec![];
+    loop {
+        hop = hop.clone();
+        if hopped.len() == 1 {
+            hop = hop.unwrap().into_records::<D>();
+        }
+        match hop.next() {
+            Some(x) if hopped.len() < WALK_CAP => hopped.push(telem(x)),
+            _ => break,
+        }
+    }
+    same_walk(direct, [by_clone, hopped])
+}
+
+pub type PN<'a> = ParsedName<&'a [u8]>;
+
+/// Wire.tla `TViews`, in that order, on one record section
+pub fn typed_walks<'a>(sec: RecordSection<'a, &'a [u8]>) -> Value {
+    type All<'a> = AllRecordData<&'a [u8], PN<'a>>;
+    json!([
+        walk_lim::<_, All>(sec, false),
+        walk_lim::<_, All>(sec, true),
+        walk_any::<_, All>(sec),
+        walk_lim::<_, A>(sec, false),
+        walk_lim::<_, A>(sec, true),
+        walk_lim::<_, Cname<PN>>(sec, false),
+        walk_lim::<_, Cname<PN>>(sec, true),
+        walk_lim::<_, Aaaa>(sec, false),
+        walk_lim::<_, Ns<PN>>(sec, true),
+        walk_lim::<_, Ptr<PN>>(sec, false),
+        walk_lim::<_, Mx<PN>>(sec, false),
+        walk_lim::<_, Soa<PN>>(sec, true),
+        walk_lim::<_, domain::base::opt::Opt<&[u8]>>(sec, false),
+        walk_lim::<_, Txt<&[u8]>>(sec, false),
+        walk_lim::<_, Dnskey<&[u8]>>(sec, true),
+        walk_lim::<_, Ds<&[u8]>>(sec, false),
+        walk_lim::<_, Nsec<&[u8], PN>>(sec, false),
+        walk_lim::<_, ZoneRecordData<&[u8], PN>>(sec, false),
+        walk_lim::<_, UnknownRecordData<&[u8]>>(sec, false),
+        walk_lim::<_, UnknownRecordData<&[u8]>>(sec, true),
+    ])
+}
+
+/// Wire.tla `RecAt(m, pos)`: the record at an offset by every public route
+/// that reads one from a parser
+pub fn rec_at(m: &[u8], pos: usize) -> Value {
+    use domain::base::record::RecordHeader;
+    use octseq::parse::Parser;
+    let mref: &&[u8] = &m;
+    let at = |pos: usize| {
+        let mut p: Parser<'_, &[u8]> = Parser::from_ref(mref);
+        p.advance(pos).ok().map(|_| p)
+    };
+    let hdr_json = |next: usize, t: u16, c: u16, ttl: u32, rdlen: u16| json!([1, next, t, c, (ttl >> 16) as u16, (ttl & 0xFFFF) as u16, rdlen]);
+    let fail = json!([0]);
+    // ParsedRecord::parse
+    let r1 = match at(pos) {
+        None => fail.clone(),
+        Some(mut p) => match ParsedRecord::parse(&mut p) {
+            Ok(r) => hdr_json(p.pos(), r.rtype().to_int(), r.class().to_int(), r.ttl().as_secs(), r.rdlen()),
+            Err(_) => fail.clone(),
+        },
+    };
+    // RecordHeader::parse, then the data is skipped by hand
+    let r2 = match at(pos) {
+        None => fail.clone(),
+        Some(mut p) => match RecordHeader::<ParsedName<&[u8]>>::parse(&mut p) {
+            Ok(h) => match p.advance(usize::from(h.rdlen())) {
+                Ok(()) => {
+                    let _ = format!("{:?} {}", h, h.owner());
+                    hdr_json(p.pos(), h.rtype().to_int(), h.class().to_int(), h.ttl().as_secs(), h.rdlen())
+                }
+                Err(_) => fail.clone(),
+            },
+            Err(_) => fail.clone(),
+        },
+    };
+    // (RecordHeader::parse_and_skip cannot be called: no RecordHeader type implements Parse)
+    // Record::parse with the data type that takes every type as it is
+    let r4 = match at(pos) {
+        None => fail.clone(),
+        Some(mut p) => match domain::base::Record::<ParsedName<&[u8]>, UnknownRecordData<&[u8]>>::parse(&mut p) {
+            Ok(Some(r)) => {
+                let (owner, data) = r.clone().into_owner_and_data();
+                assert!(&owner == r.owner() && &data == r.data());
+                hdr_json(p.pos(), r.rtype().to_int(), r.class().to_int(), r.ttl().as_secs(), data.data().len() as u16)
+            }
+            Ok(None) => json!(["declined"]),
+            Err(_) => fail.clone(),
+        },
+    };
+    let parse = if r1 == r2 && r1 == r4 { r1 } else { json!({"routes_differ": [r1, r2, r4]}) };
+    let skip = match at(pos) {
+        None => fail.clone(),
+        Some(mut p) => match ParsedRecord::skip(&mut p) {
+            Ok(()) => json!([1, p.pos()]),
+            Err(_) => fail.clone(),
+        },
+    };
+    json!([parse, skip])
 }
 
 //------------ old API: the read battery -----------------------------------------
@@ -218,6 +529,7 @@ pub fn exercise_record(r: &AnyRecord<'_>) {
     let _ = d.compose_rdata(&mut out);
     let mut out2: Vec<u8> = vec![];
     let _ = d.compose_canonical_rdata(&mut out2);
+    convert_record(r);
     match d {
         AllRecordData::Nsec(x) => {
             let t = x.types();
@@ -309,6 +621,95 @@ pub fn exercise_record(r: &AnyRecord<'_>) {
     }
 }
 
+/// Conversions of a parsed record keep it the same record: flattened into
+/// owned names and octets, moved to another octets type, narrowed to
+/// `ZoneRecordData` and widened back, rebuilt from the variant's own type,
+/// serialized.  "The same" is the zone-file rendering and `==` (where the
+/// data compares equal to itself at all).
+pub fn convert_record(r: &AnyRecord<'_>) {
+    use bytes::Bytes;
+    use domain::base::name::FlattenInto;
+    use domain::base::{Name, Record};
+    use octseq::octets::OctetsFrom;
+    let d = r.data();
+    let show = format!("{}", r.display_zonefile(DisplayKind::Simple));
+    let selfeq = d == d;
+    type FlatRec = Record<Name<Vec<u8>>, AllRecordData<Vec<u8>, Name<Vec<u8>>>>;
+    let flat: FlatRec = r.clone().try_flatten_into().expect("flatten a parsed record");
+    assert_eq!(format!("{}", flat.display_zonefile(DisplayKind::Simple)), show, "flattened record renders differently");
+    if selfeq {
+        assert!(flat.data() == d, "flattened data differs");
+    }
+    assert!(flat.owner() == r.owner() && flat.class() == r.class() && flat.ttl() == r.ttl());
+    let fd: AllRecordData<Vec<u8>, Name<Vec<u8>>> = d.clone().try_flatten_into().expect("flatten parsed data");
+    if selfeq {
+        assert!(fd == *flat.data());
+    }
+    type BytesRec = Record<Name<Bytes>, AllRecordData<Bytes, Name<Bytes>>>;
+    let moved: BytesRec = Record::try_octets_from(flat.clone()).expect("record into Bytes");
+    assert_eq!(format!("{}", moved.display_zonefile(DisplayKind::Simple)), show, "converted record renders differently");
+    if selfeq {
+        assert!(moved.data() == d, "converted data differs");
+    }
+    // narrowed to the zone-file types and widened back
+    let narrowed: Result<ZoneRecordData<_, _>, AllRecordData<_, _>> = d.clone().into();
+    match narrowed {
+        Ok(z) => {
+            assert_eq!(z.rtype(), d.rtype());
+            assert_eq!(format!("{}", z.display_zonefile(DisplayKind::Simple)), format!("{}", d.display_zonefile(DisplayKind::Simple)));
+            let direct: Option<ZoneRecordData<&[u8], ParsedName<&[u8]>>> = match d.clone() {
+                AllRecordData::A(x) => Some(x.into()),
+                AllRecordData::Cname(x) => Some(x.into()),
+                AllRecordData::Mx(x) => Some(x.into()),
+                AllRecordData::Txt(x) => Some(x.into()),
+                AllRecordData::Unknown(x) => Some(x.into()),
+                _ => None,
+            };
+            if let (Some(dz), true) = (direct, selfeq) {
+                assert!(dz == z, "zone data made from the variant differs");
+            }
+        }
+        Err(same) => {
+            if selfeq {
+                assert!(same == *d);
+            }
+        }
+    }
+    // rebuilt from the variant's own type
+    let rebuilt: Option<AllRecordData<&[u8], ParsedName<&[u8]>>> = match d.clone() {
+        AllRecordData::A(x) => Some(x.into()),
+        AllRecordData::Cname(x) => Some(x.into()),
+        AllRecordData::Ns(x) => Some(x.into()),
+        AllRecordData::Mx(x) => Some(x.into()),
+        AllRecordData::Soa(x) => Some(x.into()),
+        AllRecordData::Txt(x) => Some(x.into()),
+        AllRecordData::Opt(x) => Some(x.into()),
+        AllRecordData::Unknown(x) => Some(x.into()),
+        AllRecordData::Dnskey(x) => {
+            let again: Dnskey<Vec<u8>> = x.clone().convert();
+            assert!(again == x, "Dnskey::convert differs");
+            assert_eq!(x.clone().into_public_key(), *x.public_key());
+            Some(x.into())
+        }
+        AllRecordData::Ds(x) => {
+            assert_eq!(x.clone().into_digest(), *x.digest());
+            Some(x.into())
+        }
+        AllRecordData::Nsec(x) => {
+            assert_eq!(x.types().as_octets(), &x.types().as_slice());
+            Some(x.into())
+        }
+        _ => None,
+    };
+    if let Some(b) = rebuilt {
+        if selfeq {
+            assert!(b == *d, "rebuilt data differs");
+        }
+    }
+    // the serde rendering exists for whatever parsed
+    let _ = serde_json::to_string(r).map(|s| s.len());
+}
+
 /// every typed view of the service parameters: the raw and the typed
 /// iteration, each typed value's Display / Debug and its own iterator, and
 /// the per-type accessors
@@ -367,6 +768,26 @@ pub fn exercise_svc_params(p: &domain::rdata::svcb::SvcParams<&[u8]>) {
     }
     let _ = p.iter::<NoDefaultAlpn>().count();
     let _ = p.iter::<Ohttp>().count();
+    // the same parameters through the other constructors and the raw view
+    use domain::rdata::svcb::{SvcParams, SvcParamsBuilder, UnknownSvcParam};
+    let again = match SvcParams::from_slice(p.as_slice()) {
+        Ok(x) => x,
+        Err(_) => panic!("parameters of a parsed record are rejected by from_slice"),
+    };
+    assert!(again == p.for_slice() && again.as_slice() == p.as_slice());
+    let mut raw_len = 0;
+    let mut h = DefaultHasher::new();
+    for x in p.iter::<UnknownSvcParam<_>>() {
+        let x = x.expect("raw parameter of a parsed record");
+        let sl: &[u8] = x.as_ref();
+        assert!(sl == x.as_slice() && sl == *x.value() && x == x);
+        x.hash(&mut h);
+        raw_len += 4 + sl.len();
+    }
+    assert_eq!(raw_len, p.len());
+    let _ = (p.first::<Port>(), p.first::<Alpn<_>>().map(|a| a.iter().count()), p.first::<UnknownSvcParam<_>>().map(|x| x.key()));
+    let rebuilt: SvcParams<Vec<u8>> = SvcParamsBuilder::<Vec<u8>>::from_params(p).expect("builder from parameters").freeze().expect("freeze");
+    assert!(rebuilt.as_slice() == p.as_slice(), "parameters rebuilt through the builder differ");
 }
 
 /// every typed view of the options of an OPT record
@@ -414,6 +835,26 @@ pub fn exercise_options(o: &domain::base::opt::Opt<&[u8]>) {
 }
 
 fn q_item(q: &Question<ParsedName<&[u8]>>) -> Value {
+    // the same question made by hand and converted compares equal
+    {
+        use domain::base::iana::Class;
+        use domain::base::name::FlattenInto;
+        use octseq::octets::OctetsFrom;
+        type NV = domain::base::Name<Vec<u8>>;
+        let flat: NV = q.qname().to_name();
+        let by_new: Question<NV> = Question::new(flat.clone(), q.qtype(), q.qclass());
+        let by_tuple: Question<NV> = (flat.clone(), q.qtype(), q.qclass()).into();
+        assert!(by_new == *q && by_tuple == *q, "hand-made question differs");
+        let in1: Question<NV> = Question::new_in(flat.clone(), q.qtype());
+        let in2: Question<NV> = (flat.clone(), q.qtype()).into();
+        assert!(in1 == in2 && in1.qclass() == Class::IN);
+        assert_eq!(in1 == *q, q.qclass() == Class::IN, "new_in: class IN expected");
+        let conv: Question<domain::base::Name<bytes::Bytes>> = Question::try_octets_from(by_new.clone()).expect("question into Bytes");
+        assert!(conv == *q, "converted question differs");
+        let fl: NV = (*q.qname()).try_flatten_into().expect("flatten");
+        assert!(fl == flat);
+        assert_eq!(format!("{}", conv), format!("{}", q));
+    }
     json!([use_name(q.qname()), q.qtype().to_int(), q.qclass().to_int()])
 }
 
@@ -476,6 +917,120 @@ fn rsection(sec: Result<domain::base::message::RecordSection<'_, &[u8]>, domain:
     json!({"reach": true, "items": items, "err": err})
 }
 
+/// Wire.tla `HBits(m)`: <<QR, Opcode, AA, TC, RD, RA, Z, AD, CD, RCODE>> by
+/// every route to the header: the accessors, the `Flags` struct (also through
+/// its text form), a `HeaderSection` parsed from a parser, and the views of
+/// `Message::header_section()`; the counts through their UPDATE aliases and
+/// both octet views.
+fn header_routes(m: &[u8], msg: &Message<&[u8]>) -> Value {
+    use domain::base::header::{Flags, Header, HeaderCounts, HeaderSection};
+    use std::str::FromStr;
+    let b = |x: bool| x as u8;
+    let bits = |h: Header| {
+        json!([b(h.qr()), h.opcode().to_int(), b(h.aa()), b(h.tc()), b(h.rd()), b(h.ra()), b(h.z()), b(h.ad()), b(h.cd()), h.rcode().to_int()])
+    };
+    let cnt = |c: HeaderCounts| json!([c.qdcount(), c.ancount(), c.nscount(), c.arcount()]);
+    let h = msg.header();
+    let c = msg.header_counts();
+    let direct = bits(h);
+    let mut routes: Vec<(Value, Value)> = vec![];
+    // the Flags struct, also rendered and read back
+    let f = h.flags();
+    let via_flags = |f: Flags| json!([b(f.qr), h.opcode().to_int(), b(f.aa), b(f.tc), b(f.rd), b(f.ra), b(h.z()), b(f.ad), b(f.cd), h.rcode().to_int()]);
+    routes.push((via_flags(f), cnt(c)));
+    routes.push((via_flags(Flags::from_str(&format!("{}", f)).expect("flags text")), cnt(c)));
+    assert_eq!(Flags::new(), Flags::default());
+    // a header section parsed from a parser
+    let mref: &&[u8] = &m;
+    let mut p: octseq::parse::Parser<'_, &[u8]> = octseq::parse::Parser::from_ref(mref);
+    let hs = HeaderSection::parse(&mut p).expect("header of a message of 12 octets or more");
+    assert_eq!(p.pos(), 12);
+    routes.push((bits(*hs.header()), cnt(*hs.counts())));
+    let ah: &Header = hs.as_ref();
+    let ac: &HeaderCounts = hs.as_ref();
+    routes.push((bits(*ah), cnt(*ac)));
+    let mut back: Vec<u8> = vec![];
+    hs.compose(&mut back).unwrap();
+    assert_eq!(&back[..], &m[..12], "composed header section differs");
+    // the message's own header section and the slice views
+    let ms = msg.header_section();
+    routes.push((bits(*ms.header()), cnt(*ms.counts())));
+    assert_eq!(ms.as_slice(), &m[..12]);
+    assert_eq!(h.as_slice(), &m[..4]);
+    assert_eq!(c.as_slice(), &m[4..12]);
+    assert_eq!(HeaderCounts::new(), HeaderCounts::default());
+    // the counts under their RFC 2136 names
+    routes.push((direct.clone(), json!([c.zocount(), c.prcount(), c.upcount(), c.adcount()])));
+    let cd = cnt(c);
+    for (i, (rb, rc)) in routes.iter().enumerate() {
+        if *rb != direct || *rc != cd {
+            return json!({"routes_differ": i + 1, "direct": [direct, cd], "other": [rb, rc]});
+        }
+    }
+    assert_eq!(cd, json!([u16::from_be_bytes([m[4], m[5]]), u16::from_be_bytes([m[6], m[7]]),
+                          u16::from_be_bytes([m[8], m[9]]), u16::from_be_bytes([m[10], m[11]])]));
+    direct
+}
+
+/// The OPT record's fixed fields and options by the other routes: converted
+/// to owned octets, through `AsRef<Opt>` and a walk over the option headers,
+/// and through `OptHeader` laid over the record's octets in the message.
+fn opt_routes(m: &[u8], msg: &Message<&[u8]>, opt: &domain::base::opt::OptRecord<&[u8]>) -> Vec<Value> {
+    use domain::base::opt::{Opt, OptHeader, OptRecord, OptionHeader};
+    use octseq::octets::OctetsFrom;
+    let mut res = vec![];
+    let tuple = |payload: u16, ext: u8, version: u8, flags: u16, opts: Value| json!([payload, (u16::from(ext) << 8) | u16::from(version), flags, opts]);
+    // owned copy
+    let owned: OptRecord<Vec<u8>> = OptRecord::try_octets_from(opt.clone()).expect("owned OPT record");
+    let orec = owned.as_record();
+    res.push(tuple(owned.udp_payload_size(), owned.rcode(msg.header()).ext(), owned.version(),
+                   orec.ttl().as_secs() as u16, opts_of(owned.opt())));
+    assert_eq!(owned.dnssec_ok(), opt.dnssec_ok());
+    // AsRef<Opt> and the option headers read one by one
+    let o: &Opt<&[u8]> = opt.as_ref();
+    let mut octs: Vec<u8> = vec![];
+    {
+        use domain::base::rdata::ComposeRecordData;
+        o.compose_rdata(&mut octs).unwrap();
+    }
+    // the same option octets through the checking constructors
+    assert!(Opt::from_slice(&octs).is_ok() && Opt::from_octets(octs.clone()).is_ok(), "options of a parsed OPT record rejected");
+    let mut p = octseq::parse::Parser::from_ref(&octs[..]);
+    let mut heads = vec![];
+    while p.remaining() > 0 {
+        let h = OptionHeader::parse(&mut p).expect("option header of a checked OPT record");
+        p.advance(usize::from(h.len())).expect("option data of a checked OPT record");
+        heads.push(json!([h.code(), h.len()]));
+        let _ = OptionHeader::new(h.code(), h.len());
+    }
+    assert_eq!(o.len(), octs.len());
+    assert_eq!(o.is_empty(), heads.is_empty());
+    let rec = opt.as_record();
+    res.push(tuple(rec.class().to_int(), (rec.ttl().as_secs() >> 24) as u8, (rec.ttl().as_secs() >> 16) as u8,
+                   rec.ttl().as_secs() as u16, Value::Array(heads)));
+    // OptHeader over the record in the message (root owner only: the header
+    // view assumes a one-octet name)
+    if let Ok(mut sec) = msg.additional() {
+        loop {
+            let pos = sec.pos();
+            match sec.next() {
+                Some(Ok(r)) => {
+                    if r.rtype() == domain::base::iana::Rtype::OPT {
+                        if m[pos] == 0 {
+                            let oh = OptHeader::for_record_slice(&m[pos..]);
+                            let flags = (u16::from(oh.dnssec_ok()) << 15) | (opt.as_record().ttl().as_secs() as u16 & 0x7FFF);
+                            res.push(tuple(oh.udp_payload_size(), oh.rcode(msg.header()).ext(), oh.version(), flags, opts_of(opt.opt())));
+                        }
+                        break;
+                    }
+                }
+                _ => break,
+            }
+        }
+    }
+    res
+}
+
 /// the spec's Projection(m, starts), observed on the established API
 pub fn old_projection(m: &[u8], starts: &[usize], slw: &mut SliceProbe, predicted_hang: &[bool]) -> Value {
     let msg = match Message::from_octets(m) {
@@ -494,6 +1049,7 @@ pub fn old_projection(m: &[u8], starts: &[usize], slw: &mut SliceProbe, predicte
             json!([h.id(), u16::from_be_bytes([m[2], m[3]]), c.qdcount(), c.ancount(), c.nscount(), c.arcount()])
         }),
     );
+    o.insert("hdrx".into(), observe(|| header_routes(m, &msg)));
     o.insert(
         "q".into(),
         observe(|| {
@@ -526,6 +1082,17 @@ pub fn old_projection(m: &[u8], starts: &[usize], slw: &mut SliceProbe, predicte
     o.insert("an".into(), observe(|| rsection(msg.answer(), false)));
     o.insert("ns".into(), observe(|| rsection(msg.authority(), false)));
     o.insert("ar".into(), observe(|| rsection(msg.additional(), true)));
+    o.insert(
+        "typed".into(),
+        observe(|| {
+            let walks = |sec: Result<RecordSection<'_, &[u8]>, domain::base::wire::ParseError>| match sec {
+                Ok(s) => typed_walks(s),
+                Err(_) => json!([]),
+            };
+            json!([walks(msg.answer()), walks(msg.authority()), walks(msg.additional())])
+        }),
+    );
+    o.insert("recat".into(), observe(|| Value::Array(starts.iter().map(|s| rec_at(m, *s)).collect())));
     o.insert(
         "iter".into(),
         observe(|| {
@@ -572,7 +1139,14 @@ pub fn old_projection(m: &[u8], starts: &[usize], slw: &mut SliceProbe, predicte
                 let rec = opt.as_record();
                 let ttl = rec.ttl().as_secs();
                 assert_eq!((ttl >> 16) as u16, ttlhi);
-                json!({"k": "opt", "v": [opt.udp_payload_size(), ttlhi, (ttl & 0xFFFF) as u16, opts]})
+                let v = json!([opt.udp_payload_size(), ttlhi, (ttl & 0xFFFF) as u16, opts]);
+                let others = opt_routes(m, &msg, &opt);
+                for (i, ov) in others.iter().enumerate() {
+                    if *ov != v {
+                        return json!({"k": "opt", "routes_differ": i + 1, "v": v, "other": ov});
+                    }
+                }
+                json!({"k": "opt", "v": v})
             }
             None => {
                 let _ = msg.opt_rcode();
@@ -872,6 +1446,23 @@ fn sl_dev_name(v: i64) -> Option<&'static str> {
     }
 }
 
+/// The typed walks: element by element; where the specification does not
+/// know the layout (`["o"]`) a value and an error are both what it expects.
+fn typed_matches(exp: &Value, obs: &Value) -> bool {
+    match (exp, obs) {
+        (Value::Array(e), Value::Array(o)) => {
+            if e.len() == 1 && e[0] == "o" {
+                return o.len() == 1 && (o[0] == "o" || o[0] == "e");
+            }
+            if e.first().map(|x| x.is_string()).unwrap_or(false) {
+                return e == o;
+            }
+            e.len() == o.len() && e.iter().zip(o.iter()).all(|(a, b)| typed_matches(a, b))
+        }
+        _ => exp == obs,
+    }
+}
+
 /// Compares an observation with the expectation component by component.
 /// Returns (known deviations witnessed, mismatching components).
 pub fn classify(exp: &Value, dev: &Value, obs: &Value) -> (Vec<String>, Vec<String>) {
@@ -911,6 +1502,12 @@ pub fn classify(exp: &Value, dev: &Value, obs: &Value) -> (Vec<String>, Vec<Stri
             continue;
         }
         if k == "agree" && !hdevs.is_empty() {
+            continue;
+        }
+        if k == "typed" {
+            if !typed_matches(ev, ov) {
+                bad.push(k.clone());
+            }
             continue;
         }
         if k == "sl" {
@@ -954,7 +1551,9 @@ pub fn classify(exp: &Value, dev: &Value, obs: &Value) -> (Vec<String>, Vec<Stri
 /// The S->I loop with component-wise classification; output format of
 /// `verif_harness::common::run_cases` (FAIL / KNOWN / SUMMARY lines).
 pub fn run_component_cases<F: FnMut(&Value, &Value) -> Value>(mut f: F) -> Tally {
-    quiet_panics();
+    if std::env::var("VERIF_LOUD_PANICS").is_err() {
+        quiet_panics();
+    }
     let devs = open_devs();
     let stdin = std::io::stdin();
     let stdout = std::io::stdout();
